@@ -1292,7 +1292,7 @@ class Eval:
             # must return exactly this condition (checked at the end)
             self.accept_cond = c.bits[0]
             return self.stmt(then)
-        if isinstance(c, Int) and isinstance(c.bits[0], tuple) and c.bits[0][0] == 'c' and self.depth == 0:
+        if isinstance(c, Int) and isinstance(c.bits[0], tuple) and c.bits[0][0] == 'c' and (self.depth == 0 or self.mode == 'set'):
             cond = c.bits[0][1]
             if self.mode == 'set' and self.fork and self.param_cond(cond) is not None:
                 if len(self.path) < len(self.decisions):
@@ -2597,8 +2597,13 @@ def emit_glue(results, path, worlds):
             tx = stx.get(nm)
             if R.get('wrapper'):
                 # a wrapper has no Add/Get...Double call of its own: the literals are the ones of the function it forwards to
-                if s_ is None and nm in R['sscaled'] and 'text' in R['sscaled'][nm] and R['info'][nm].get('sfield', {}).get('kind') == 'scaled':
-                    r_ = R['sscaled'][nm]
+                allsc = dict(R['sscaled'])
+                for V_ in results:
+                    if V_.get('variant_of') == R['id']:
+                        for k_, v_ in V_['sscaled'].items():
+                            allsc.setdefault(k_, v_)           # a field written on one path only (behind a conditional)
+                if s_ is None and nm in allsc and 'text' in allsc[nm] and R['info'][nm].get('sfield', {}).get('kind') == 'scaled':
+                    r_ = allsc[nm]
                     s_ = (r_['w'], r_['signed'], Decimal(r_['text']))
                 if p_ is None and nm in R['pscaled'] and R['info'][nm].get('pfield', {}).get('kind') == 'scaled':
                     r_ = R['pscaled'][nm]
